@@ -14,6 +14,7 @@ import ParryModel.C05.Theorems13
 import ParryModel.C05.Theorems14
 import ParryModel.C05.Theorems15
 import ParryModel.C05.Theorems16
+import ParryModel.C05.Theorems17
 /-!
 # C05 property theorems (umbrella file)
 
@@ -36,5 +37,6 @@ import ParryModel.C05.Theorems16
 * `Theorems14.lean` — fu5: tetrahedron members are fixed; interior points of a non-degenerate tetrahedron get `(true, pt)` / `OnSolid` (`solid = true`) or the documented `unimplemented!()` (`solid = false`); flag `true` only with `OnSolid`.
 * `Theorems15.lean` — fu5: the tetrahedron's default methods (`Tet.lean`): no panic with `solid = true`, `contains` on interior points, distance never negative, max-dist, posed projection nearest in the posed tetrahedron.
 * `Theorems16.lean` — fu5: local forms of the vertex pseudo-normal test for the model's own `compute_pseudo_normals` (only incident faces; inside at locally convex corners, outside at reflex corners / blunt normal cones).
+* `Theorems17.lean` — fu5: tetrahedron `distance_to_local_point` / `_with_max_dist` against the set (distance to the tetrahedron; `None` iff the bound is below it).
 `./mkaudit C05` collects the public `theorem`s of every `Theorems*.lean`.
 -/
